@@ -1,5 +1,5 @@
 import Urandom.Model.ChaCha
-import Urandom.Lemmas.SimdProof
+import Urandom.Lemmas.ChaChaBase
 /-
 C02 - ChaCha generators emit the genuine ChaCha keystream on every backend.
 
@@ -76,46 +76,6 @@ theorem next_batch_is_keystream (N : Nat) (s : State) :
   -- the key material is unchanged
   simp only [specBlock, h3]
   cases s; rfl
-
-/-! ### the three back ends AS TRANSLATED FROM THE SOURCE
-
-`Simd.Gen.slp`, `Simd.Gen.sse2`, `Simd.Gen.avx2` are register-machine programs that `tools/extract_simd.py` regenerates from
-`src/rng/chacha/{slp,sse2,avx2}.rs` on every run (`Generated/Simd.lean`); `Simd.Prog.block` runs one on a generator state.
-The hand-written row-wise model `ChaCha.block` is what the rest of the framework (the buffered generator, C03, C08, C19)
-is built on; these theorems tie it - and the specification - to the code text of all three back ends, including the
-two-blocks-per-register packing and the final `permute2x128` of the AVX2 one. -/
-
-/-- the portable back end (`slp.rs`), for every round count and every state -/
-theorem slp_translated_is_model (N : Nat) (s : State) :
-    Simd.Gen.slp.block N s = (Simd.batchWords (block N s).1, (block N s).2) :=
-  Simd.block_eq _ Simd.slp_T rfl rfl rfl N s
-
-/-- the SSE2 back end (`sse2.rs`) -/
-theorem sse2_translated_is_model (N : Nat) (s : State) :
-    Simd.Gen.sse2.block N s = (Simd.batchWords (block N s).1, (block N s).2) :=
-  Simd.block_eq _ Simd.sse2_T rfl rfl rfl N s
-
-/-- the AVX2 back end (`avx2.rs`) -/
-theorem avx2_translated_is_model (N : Nat) (s : State) :
-    Simd.Gen.avx2.block N s = (Simd.batchWords (block N s).1, (block N s).2) :=
-  Simd.block_eq _ Simd.avx2_T rfl rfl rfl N s
-
-/-- **every back end, as translated from its source text, writes the 64 words of the keystream blocks at counters
-`c, c+1, c+2, c+3` (mod 2^64) of the generator's key and stream id, in order, and advances the counter by 4** -/
-theorem translated_backends_are_keystream (N : Nat) (s : State) (p : Simd.Prog)
-    (hp : p = Simd.Gen.slp ∨ p = Simd.Gen.sse2 ∨ p = Simd.Gen.avx2) :
-    (p.block N s).1 = (specBlock N s s.getCounter s.getStream).words ++ (specBlock N s (s.getCounter + 1) s.getStream).words ++
-        (specBlock N s (s.getCounter + 2) s.getStream).words ++ (specBlock N s (s.getCounter + 3) s.getStream).words ∧
-    (p.block N s).2 = s.setCounter (s.getCounter + 4) := by
-  have h : p.block N s = (Simd.batchWords (block N s).1, (block N s).2) := by
-    rcases hp with rfl | rfl | rfl
-    · exact slp_translated_is_model N s
-    · exact sse2_translated_is_model N s
-    · exact avx2_translated_is_model N s
-  obtain ⟨h1, h2, h3, h4⟩ := batch_is_keystream N s
-  rw [h]
-  refine ⟨?_, (batch_advances N s).2.2⟩
-  simp only [Simd.batchWords, h1, h2, h3, h4]
 
 /-- **`from_seed` uses the documented layout**: key = the two seed halves repeated, counter 1,
 stream 0 - a function of the seed only -/
